@@ -22,11 +22,11 @@ Definition jstr (j : json) : option string := match j with JStr s => Some s | _ 
 Definition jlist (j : json) : option (list json) :=
   match j with JList l => Some l | _ => None end.
 
-(* rationals travel as [num, den] with den > 0, or as a bare integer *)
+(* rationals travel as {"q":[num, den]} with den > 0, or as a bare integer *)
 Definition jq (j : json) : option Q :=
   match j with
   | JInt z => Some (inject_Z z)
-  | JList [JInt n; JInt (Zpos d)] => Some (Qmake n d)
+  | JObj [(_, JList [JInt n; JInt (Zpos d)])] => Some (Qmake n d)
   | _ => None
   end.
 
@@ -51,7 +51,11 @@ Definition jarr {A} (f : json -> option A) (j : json) : option (arr A) :=
 
 (* ---- encoders ----------------------------------------------------------------- *)
 Definition of_q (q : Q) : json :=
-  let r := Qred q in JList [JInt (Qnum r); JInt (Zpos (Qden r))].
+  let r := Qred q in
+  match Qden r with
+  | xH => JInt (Qnum r)
+  | d => JObj [("q", JList [JInt (Qnum r); JInt (Zpos d)])]
+  end.
 Definition of_nat (n : nat) : json := JInt (Z.of_nat n).
 Definition of_val (v : val) : json :=
   match v with VUndef => JNull | VNegInf => JStr "-inf" | VFin q => of_q q end.
